@@ -273,7 +273,7 @@ func runC16(c *Ctx) {
 	if c.Thorough() {
 		nodes, maxRules, maxDomLinks = 4, 2, 4
 	}
-	c.Rule = fmt.Sprintf("all role graphs over %d names incl. self-loops and cycles (plain model; every subset of the directed links) and all domain graphs of <= %d links over 3 names x 2 domains, x all policies of <= %d rules over subjects (names + a name outside the graph) x 2 permissions, plus chains of 9..13 names around the depth limit, complete trees and layered DAGs of fan-out 2..3 and depth 2..3, and seeded random graphs of 5..8 names: GetImplicitRolesForUser, GetImplicitUsersForRole, GetImplicitPermissionsForUser, GetImplicitUsersForPermission, GetImplicitUsersForResource for every name, domain, permission and resource are compared with the Lean model, the role listing with g() (spec) and the permission listing with enforce() (spec); on the implementation: listed roles = names with HasLink, Enforce = some listed permission grants, implicit users = non-role subjects that Enforce allows, resource rows = non-role names that Enforce allows; non-trivial = a case with listed implicit roles and rules; distinct = (graph, policy)", nodes, maxDomLinks, maxRules)
+	c.Rule = fmt.Sprintf("all role graphs over %d names incl. self-loops and cycles (plain model; every subset of the directed links) and all domain graphs of <= %d links over 3 names x 2 domains, x all policies of <= %d rules over subjects (names + a name outside the graph) x 2 permissions, plus chains of 9..13 names around the depth limit, complete trees and layered DAGs of fan-out 2..3 and depth 2..3, and seeded random graphs of 5..8 names: GetImplicitRolesForUser, GetImplicitUsersForRole, GetImplicitPermissionsForUser, GetImplicitUsersForPermission, GetImplicitUsersForResource for every name, domain, permission and resource are compared with the Lean model, the role listing with g() (spec) and the permission listing with enforce() (spec); on the implementation: listed roles = names with HasLink, Enforce = some listed permission grants, implicit users = non-role subjects that Enforce allows, resource rows = non-role names that Enforce allows; names whose concatenations coincide (numeric ids, with and without a domain); non-trivial = a case with listed implicit roles and rules; distinct = (graph, policy)", nodes, maxDomLinks, maxRules)
 	all := []string{"a", "b", "c", "d"}[:nodes]
 	// plain: every subset of the directed links (self-loops included)
 	var E [][]string
@@ -341,6 +341,14 @@ func runC16(c *Ctx) {
 		for _, pi := range pols {
 			c16Case(c, "domain", true, pick(ED, li), pick(RD, pi), []string{"a", "b", "c", "z"}, []string{"d1", "d2"}, [][]string{{"data1", "read"}})
 		}
+	}
+	// names whose concatenations coincide ("1"+"23" = "12"+"3", with a domain "1"+"2"+"34" = "1"+"23"+"4"):
+	// numeric ids are ordinary names; what Enforce remembers about one pair must not answer for another
+	for _, links := range [][][]string{{{"1", "23"}}, {{"12", "3"}}, {{"1", "23"}, {"3", "12"}}, {{"2", "3"}, {"1", "2"}}} {
+		c16Case(c, "concat-names", false, links, [][]string{{"23", "data1", "read"}, {"3", "data2", "read"}, {"12", "data1", "read"}}, []string{"1", "12", "2", "23", "3"}, nil, perms)
+	}
+	for _, links := range [][][]string{{{"1", "2", "34"}}, {{"1", "23", "4"}}, {{"1", "2", "34"}, {"12", "3", "4"}}} {
+		c16Case(c, "concat-names-domain", true, links, [][]string{{"2", "34", "data1", "read"}, {"23", "4", "data1", "read"}, {"3", "4", "data1", "read"}}, []string{"1", "12", "2", "23", "3"}, []string{"34", "4"}, [][]string{{"data1", "read"}})
 	}
 	// chains around the depth limit: the listing has no bound, g() has
 	for n := 9; n <= 13; n++ {
